@@ -10,6 +10,7 @@ the model's, is refused.  Oracle: the property text on (virtual time, line)."""
 from fractions import Fraction
 
 import dsched
+import fixture
 import shims
 import sx
 from sx import sym, A
@@ -103,10 +104,10 @@ def run_sender(sc):
                     snd.change_keep_alive(arg, True)
                 elif kind == 'none':
                     labels.append([sym('put'), A(1), sym('none')])
-                    snd._send_queue.put(None)
+                    fixture.sender_queue(snd).put(None)
                 elif kind == 'stop':
                     labels.append([sym('put'), A(1), [sym('some'), b'STOP_WAITING_PILL']])
-                    snd._send_queue.put('STOP_WAITING_PILL')
+                    fixture.sender_queue(snd).put('STOP_WAITING_PILL')
                 S.yield_('env', None, cond=parked)
             advance(Fraction(sc.horizon))
         S.spawn('env', 'env', body)
@@ -117,8 +118,12 @@ def run_sender(sc):
                     return t
             return en[0]
         status = S.run(chooser, max_steps=200000)
-        crashes = [e for e in S.events if e[0] in ('thread-crash', 'exc', 'ioexc')]
+        crashes = [e for e in S.events if e[0] in ('exc', 'ioexc') or (e[0] == 'thread-crash' and e[2:3] != ('env',) and 'env' not in e[1:3])]
+        harness_crash = [e for e in S.events if e[0] == 'thread-crash' and 'env' in e[1:3]]
         S.kill_all()
+    if harness_crash:
+        # the harness's own environment thread failed (not the library): a broken harness, never a property violation
+        raise RuntimeError('C13 harness environment thread crashed: %r' % (harness_crash[0],))
     return writes, labels, status, crashes
 
 
